@@ -19,7 +19,7 @@ OPT = [None] + ACCS
 TARGET_PROBE = os.path.join(vlib.CACHE, "target-probe")
 KNOWN_PATH = os.path.join(vlib.VERIF, "KNOWN_FINDINGS.jsonl")
 
-RULE = ("exhaustive: front end {inline DSL, JSON manifest} x global defaults {none, 3 rotations of (RW,RO,WO) over "
+RULE = ("exhaustive: front end {inline DSL, JSON manifest file; thorough tier also YAML and TOML manifest files} x global defaults {none, 3 rotations of (RW,RO,WO) over "
         "register/buffer/field default} x [registers: own access {none,RW,RO,WO} x {plain, ref without access override, "
         "ref overriding to RW/RO/WO} x 8 operations; buffers: own {none,RW,RO,WO} x 16 operations (10 inherent + 6 "
         "embedded-io trait methods); fields: own {none,RW,RO,WO} x {getter, setter}]; one probe function each, one cargo "
@@ -29,7 +29,6 @@ RULE = ("exhaustive: front end {inline DSL, JSON manifest} x global defaults {no
 # ------------------------------------------------------------------ operations (call syntax only;
 # WHICH of them must compile is computed by the Coq model, never here)
 
-REG_CLOSURE = "|_r| {}"
 OP_CALLS = {
     ("Reg", "read"): (False, ["let _ = dev.{m}().read();"]),
     ("Reg", "write"): (False, ["let _ = dev.{m}().write(|_r| {{}});"]),
@@ -206,11 +205,22 @@ class Device:
         d["Fld"] = {"type": "register", "access": "RW", "address": addr, "size_bits": 32, "fields": fields}
         return d
 
+    @property
+    def is_manifest(self):
+        return self.fe != "dsl"
+
     def manifest_name(self):
-        return f"manifests/{self.mod}.json"
+        return f"manifests/{self.mod}.{self.fe}"
+
+    def manifest_text(self):
+        d = self.manifest()
+        if self.fe == "toml":
+            return to_toml(d)
+        # JSON is also valid YAML (flow style): the .yaml file exercises the YAML parser on the same tree
+        return json.dumps(d, indent=1) + "\n"
 
     def definition_text(self):
-        return "\n".join(self.dsl()) if self.fe == "dsl" else json.dumps(self.manifest(), indent=1)
+        return "\n".join(self.dsl()) if self.fe == "dsl" else self.manifest_text()
 
     def rust(self):
         L = [f"pub mod {self.mod} {{"]
@@ -224,8 +234,27 @@ class Device:
         return L
 
 
+def to_toml(d):
+    out = []
+
+    def emit(path, table):
+        if path:
+            out.append("[" + ".".join(path) + "]")
+        for k, v in table.items():
+            if not isinstance(v, dict):
+                out.append(f"{k} = {json.dumps(v)}")
+        for k, v in table.items():
+            if isinstance(v, dict):
+                emit(path + [k], v)
+    emit([], d)
+    return "\n".join(out) + "\n"
+
+
+FRONT_ENDS = {"quick": ("dsl", "json"), "thorough": ("dsl", "json", "yaml", "toml")}
+
+
 def placement(fe, kind, own, refov, is_ref, gdef):
-    front = "dsl" if fe == "dsl" else "manifest"
+    front = "dsl" if fe == "dsl" else ("manifest" if fe == "json" else "manifest-" + fe)
     if kind == "Fld":
         p = "field-own" if own else ("field-global-default" if gdef else "field-implicit-rw")
     elif is_ref and refov:
@@ -379,8 +408,8 @@ def build_crate(root, devices, probes):
         shutil.rmtree(os.path.join(root, "manifests"))
     manifests = {}
     for d in devices:
-        if d.fe == "json":
-            manifests[d.manifest_name()] = json.dumps(d.manifest(), indent=1) + "\n"
+        if d.is_manifest:
+            manifests[d.manifest_name()] = d.manifest_text()
     L = ["// GENERATED by /verif/tools/checks/c17.py — compile-fail probe for property C17",
          "#![allow(unused, clippy::all)]",
          "// manifests: " + hashlib.sha1("".join(sorted(manifests.values())).encode()).hexdigest()]
@@ -593,11 +622,18 @@ def run(ctx):
 
     # the model must at least compile (definitions only) to serve as the oracle
     ok, log = vlib.coq_build(["theories/Access.vo"])
+    stale_model = None
     if not ok:
-        return fail_no_input("the access model / translated tables do not compile: " + (info.get("reason") or log[-800:]))
+        stale_model = "the access model / translated tables do not build: " + (info.get("reason") or log[-800:])
+        if not os.path.exists(os.path.join(vlib.COQ, "theories", "Access.vo")):
+            return fail_no_input(stale_model)
+        # e.g. the translator refused the source: keep going with the previously compiled model so that the probe
+        # can still look for a concrete failing call (the SPEC half of the model does not depend on the tables)
+        ctx.log("WARNING:", stale_model.splitlines()[0], "- using the previously compiled model as oracle")
+        info = dict(info, ok=False, reason=info.get("reason") or stale_model)
     tables, out = model_tables(ctx)
     if tables is None:
-        return fail_no_input("could not evaluate the model tables: " + out[-800:])
+        return fail_no_input((stale_model + "; " if stale_model else "") + "could not evaluate the model tables: " + out[-800:])
     cov["translated_tables"] = {"op_bounds_rows": len(tables["rows"]), "read_capable": tables["read_capable"],
                                 "write_capable": tables["write_capable"], "front_reads_default": tables["front"]}
     if sorted(tables["expected"]) != sorted(OP_CALLS):
@@ -609,7 +645,7 @@ def run(ctx):
 
     # probes cover every operation the property names (also those the source no longer defines)
     ops = list(tables["expected"])
-    devices = [Device(fe, gi) for fe in ("dsl", "json") for gi in range(len(GLOBAL_DEFAULTS))]
+    devices = [Device(fe, gi) for fe in FRONT_ENDS[ctx.tier] for gi in range(len(GLOBAL_DEFAULTS))]
     probes = enumerate_probes(devices, ops)
     err = model_verdicts(ctx, probes)
     if err:
@@ -643,7 +679,7 @@ def run(ctx):
                       + sample(lambda p: not p["rustc_compiles"] and p["is_ref"] and p["refov"])
                       + sample(lambda p: not p["rustc_compiles"] and "::" in p["op"])
                       + sample(lambda p: not p["rustc_compiles"] and p["kind"] == "Fld")
-                      + sample(lambda p: p["dev"].fe == "json" and p["rustc_compiles"] != p["property_says_compiles"]))
+                      + sample(lambda p: p["dev"].is_manifest and p["rustc_compiles"] != p["property_says_compiles"]))
 
     # a compile that did not even reach the probe crate: nothing was observed
     if not reached:
@@ -658,7 +694,7 @@ def run(ctx):
     for p in probes:
         if p["rustc_compiles"] == p["property_says_compiles"]:
             continue
-        d5_class = (p["dev"].fe == "json" and p["gdef"] is not None and p["own"] is None and p["refov"] is None)
+        d5_class = (p["dev"].is_manifest and p["gdef"] is not None and p["own"] is None and p["refov"] is None)
         if d5_class and "D5" in known and p["rustc_compiles"] == p["d5_behaviour_compiles"]:
             known_hits["D5"].append(p)
             continue
@@ -676,8 +712,8 @@ def run(ctx):
         elif p["kind"] != "Fld" and p["rustc_markers"] != [p["effective_access"]]:
             violations.append((p, f"call is rejected because the accessor carries marker type(s) {p['rustc_markers']}, "
                                   f"not the marker of its effective access {p['effective_access']}"))
-    model_stale = [p for p in probes if p["rustc_compiles"] == p["property_says_compiles"]
-                   and p["model_says_compiles"] != p["rustc_compiles"]]
+    model_stale = [] if stale_model else [p for p in probes if p["rustc_compiles"] == p["property_says_compiles"]
+                                          and p["model_says_compiles"] != p["rustc_compiles"]]
 
     # errors outside probe functions
     dev_by_mod = {d.mod: d for d in devices}
@@ -792,7 +828,7 @@ def replay(ctx, path):
     ctx.log(f"property says compiles={p['property_says_compiles']}  rustc compiles={p['rustc_compiles']}  {p['rustc_errors']}")
     if p["rustc_compiles"] != p["property_says_compiles"]:
         known = {f["id"]: f for f in vlib.load_known_findings("C17")}
-        d5_class = (p["dev"].fe == "json" and p["gdef"] is not None and p["own"] is None and p["refov"] is None)
+        d5_class = (p["dev"].is_manifest and p["gdef"] is not None and p["own"] is None and p["refov"] is None)
         if d5_class and "D5" in known and p["rustc_compiles"] == p["d5_behaviour_compiles"]:
             vlib.known_finding(ctx, known["D5"], "manifest global default access ignored (replayed probe)")
         else:
